@@ -243,5 +243,31 @@ def gen_layered(rng):
     return gen.layered_program(rng)
 
 
+def gen_projection(rng):
+    """rules whose body falls into parts that share few variables (what `projection` splits), with local scopes,
+    anonymous variables, negation and comparisons in either part"""
+    vs = ["X", "Y", "Z", "W", "V"]
+    n = rng.choice([3, 4, 5])
+    chain = []
+    for i in range(n - 1):
+        a, b = vs[i], vs[i + 1]
+        chain.append(rng.choice([f"e{i}({a},{b})", f"e{i}({a},{b},_)", f"e{i}({b},{a})", f"e{i}({a},f({b}))"]))
+    extras = []
+    for _ in range(rng.choice([0, 1, 2, 2])):
+        v = rng.choice(vs[:n])
+        extras.append(rng.choice([f"not bad({v})", f"{v} > 1", f"ok({v},_)", f"not not good({v})", f"m({v}) : dom({v},K), K > 1",
+                                  f"1 <= #count {{ U : cnt({v},U) }}", f"{v} != {rng.choice(vs[:n])}"]))
+    body = chain + extras
+    rng.shuffle(body)
+    hv = rng.sample(vs[:n], rng.choice([1, 1, 2]))
+    head = rng.choice([f"h({','.join(hv)})", f"h({','.join(hv)})", f"{{ h({','.join(hv)}) }}", ""])
+    lines = [f"{head} :- {', '.join(body)}."]
+    if rng.random() < 0.4:
+        lines.append("{ e0(X,Y) } :- d(X), d(Y).")
+    if rng.random() < 0.3:
+        lines.append(f"g({vs[0]}) :- h({','.join(hv)}), not bad({vs[0]}), aux({vs[0]}).".replace("aux", rng.choice(["aux", "__aux_1", "q"])))
+    return "\n".join(lines)
+
+
 GENERATORS = {"minmax_chains": gen_minmax, "sum_chains": gen_sumchains, "inline": gen_inline, "math": gen_math,
-              "duplication": gen_duplication, "symmetry": gen_symmetry, "unused": gen_unused}
+              "duplication": gen_duplication, "symmetry": gen_symmetry, "unused": gen_unused, "projection": gen_projection}
